@@ -207,24 +207,31 @@ def opPlan : RM Res := do
       s!"landing/stroke/parking waypoints: flags {origW.map (·.flags)}; expected {wantOrig.map (·.2)} each reproducing its pose")]
     preds := preds ++ [P "C12.interp_only_if_requested" (incl || wps.all (fun w => !(hasFlag w.flags flagLinInterp)), "interpolated waypoints returned although not requested")]
     -- interpolated waypoints lie on the straight segment between the original poses around them
-    let rec onSeg : List WP → Option (Iso Float) → List (Iso Float) → Bool
+    -- walk along the Cartesian part: a waypoint that carries the flag of the next original pose and reproduces it
+    -- advances to the next segment; interpolated waypoints in between must lie on the current segment; waypoints of an
+    -- RRT re-planning (they carry the flag of the pose they lead to but are joint-space relocations) are not Cartesian
+    let rec onSeg : List WP → Option (Iso Float) → List (Iso Float × Nat) → Bool
       | [], _, _ => true
       | w :: rest, prev, remaining =>
-        if hasFlag w.flags flagLand || hasFlag w.flags flagTrace || hasFlag w.flags flagPark then
-          onSeg rest remaining.head? (remaining.drop 1)
-        else if hasFlag w.flags flagLinInterp then
-          match prev, remaining.head? with
-          | some a, some b =>
-            let p := (forwardC k w.joints).t
-            let ab := b.t.sub a.t
-            let l2 := ab.normSq
-            let tpar := if l2 > 0.0 then (V3.dot (p.sub a.t) ab) / l2 else 0.0
-            let foot := a.t.add (ab.scale tpar)
-            ((p.sub foot).norm ≤ 2e-6 && tpar ≥ -1e-5 && tpar ≤ 1.0 + 1e-5) && onSeg rest prev remaining
-          | _, _ => onSeg rest prev remaining
-        else onSeg rest prev remaining
-    let origPoses := wantOrig.map (·.1)
-    preds := preds ++ [P "C12.on_segment" (onSeg cart none origPoses, "a Cartesian waypoint is off the straight segment between the poses it interpolates")]
+        match remaining with
+        | (pose, fl) :: more =>
+          if hasFlag w.flags fl && fkOk w pose then onSeg rest (some pose) more
+          else if hasFlag w.flags flagLinInterp then
+            match prev with
+            | some a =>
+              -- distance from the tool point to the closed segment [a, b]; the waypoint reproduces its pose within
+              -- 1 µm / 1 µrad at the flange, a tool lever adds lever·1 µrad
+              let p := (forwardC k w.joints).t
+              let ab := pose.t.sub a.t
+              let l2 := ab.normSq
+              let t0 := if l2 > 0.0 then (V3.dot (p.sub a.t) ab) / l2 else 0.0
+              let tpar := if t0 < 0.0 then 0.0 else if t0 > 1.0 then 1.0 else t0
+              let foot := a.t.add (ab.scale tpar)
+              ((p.sub foot).norm ≤ 2e-6 + 1e-6 * toolLever k) && onSeg rest prev remaining
+            | none => onSeg rest prev remaining
+          else onSeg rest prev remaining
+        | [] => true
+    preds := preds ++ [P "C12.on_segment" (onSeg cart none wantOrig, "a Cartesian waypoint is off the straight segment between the poses it interpolates")]
     -- the Cartesian part recomputed by the model from the strategy (no RRT fallback): exact tie + cost bound
     let mut corrOk := true
     let mut tags := [s!"n={wps.length}", s!"pool={pool}", "ok"]
